@@ -74,12 +74,13 @@ def correspondence(ctx):
     ctx.sample({"objects": ["Leray", "make_incompressible", "ProjectedConvection3d", "NavierStokesVelocity", "KolmogorovFlowVelocity"]})
 
 
-def probe_projection(D, N, seed):
+def probe_projection(D, N, seed, amp=1.0):
+    """`amp`: the projection is LINEAR, so every statement is relative to the size of the field — also for tiny fields"""
     import jax.numpy as jnp
     from exponax import nonlin_fun as nf
     from exponax import spectral as sp
     rng = np.random.default_rng(seed)
-    u = nyquist_free(rng, D, N)
+    u = nyquist_free(rng, D, N) * float(amp)
     L = 2.3
     dop = sp.build_derivative_operator(D, L, N)
     ler = nf.Leray(D, N, derivative_operator=dop)
@@ -137,7 +138,7 @@ def probe_ns(name, order, N, steps, seed):
     return {"ok": bool(worst <= 1e-10 and fin), "max_rel_divergence": worst, "finite": fin}
 
 
-def probe_proj3d(N, seed):
+def probe_proj3d(N, seed, amp=1.0):
     import jax.numpy as jnp
     from exponax import nonlin_fun as nf
     from exponax import spectral as sp
@@ -145,7 +146,7 @@ def probe_proj3d(N, seed):
     L = 1.7
     dop = sp.build_derivative_operator(3, L, N)
     pc = nf.ProjectedConvection3d(3, N, derivative_operator=dop, dealiasing_fraction=2 / 3)
-    u = rng.normal(size=(3, N, N, N))   # every input, not only divergence-free ones
+    u = rng.normal(size=(3, N, N, N)) * float(amp)   # every input, not only divergence-free ones; the term is quadratic
     out = np.asarray(pc(sp.fft(jnp.asarray(u))))
     k = np.asarray(sp.build_wavenumbers(3, N))
     div = (1j * 2 * np.pi / L * k * out).sum(axis=0)
@@ -161,6 +162,20 @@ def oracle(ctx, deep):
         if not r["ok"]:
             fails.append({"key": f"C10:projection:D{D}", "what": f"Leray / make_incompressible contract broken (D={D}, N={N}): {r}",
                           "probe": "projection", "args": {"D": D, "N": N, "seed": ctx.seed}, "observed": r})
+    # small amplitudes (the statements are scale-free: a threshold on absolute sizes anywhere would show here)
+    for D, N in [(2, 8), (3, 5)] + ([(2, 9), (3, 6)] if deep else []):
+        for amp in (1e-6, 1e-10, 1e-13):
+            r = probe_projection(D, N, ctx.seed, amp)
+            ctx.count(("oracle_projection_amp", D, N, amp))
+            if not r["ok"]:
+                fails.append({"key": f"C10:projection-small:D{D}", "what": f"Leray / make_incompressible contract broken for a field of amplitude {amp:g} (D={D}, N={N}; all measures relative to the field): {r}",
+                              "probe": "projection", "args": {"D": D, "N": N, "seed": ctx.seed, "amp": amp}, "observed": r})
+    for amp in (1e-3, 1e-6):
+        r = probe_proj3d(6, ctx.seed, amp)
+        ctx.count(("oracle_proj3d_amp", amp))
+        if not r["ok"]:
+            fails.append({"key": "C10:proj3d-small", "what": f"ProjectedConvection3d output is not divergence-free for an input of amplitude {amp:g} (N=6; relative to the output): {r}",
+                          "probe": "proj3d", "args": {"N": 6, "seed": ctx.seed, "amp": amp}, "observed": r})
     for N in ([5, 6] if not deep else [4, 5, 6, 7, 8]):
         r = probe_proj3d(N, ctx.seed)
         ctx.count(("oracle_proj3d", N))
